@@ -15,11 +15,12 @@ mkdir -p "$S/repo/zzprobe" && cp "$V/sim/probe/probe.qi.idl" "$S/repo/zzprobe/" 
 cd "$S/repo" || fail "cd"
 go run ./meta/cmd/stub --idl zzprobe/probe.qi.idl --output zzprobe/probe_stub_gen.go >"$S/gen.log" 2>&1 || { cat "$S/gen.log" >&2; fail "probe generation failed"; }
 [ -s zzprobe/probe_stub_gen.go ] || { cat "$S/gen.log" >&2; fail "probe generation produced nothing"; }
-"$V/bin/simrewrite" -root . -pkgs bus,bus/net,bus/directory,bus/session,bus/services,bus/util,zzprobe,examples/space >"$S/rewrite.log" 2>&1 || { cat "$S/rewrite.log" >&2; fail "instrumentation failed"; }
+"$V/bin/simrewrite" -sites "$S/sites.txt" -root . -pkgs bus,bus/net,bus/directory,bus/session,bus/services,bus/util,zzprobe,examples/space >"$S/rewrite.log" 2>&1 || { cat "$S/rewrite.log" >&2; fail "instrumentation failed"; }
 printf '\nrequire zzsim v0.0.0\n\nreplace zzsim => ../zzsim\n' >> go.mod
 cd "$S/harness" || fail "cd"
 cp "$S/repo/go.sum" . 2>/dev/null
 "$V/bin/simrewrite" -root . -pkgs scen >"$S/rewrite2.log" 2>&1 || { cat "$S/rewrite2.log" >&2; fail "harness instrumentation failed"; }
 go test -c -o "$OUT" . >"$S/build.log" 2>&1 || { cat "$S/build.log" >&2; fail "build failed"; }
+cp "$S/sites.txt" "$(dirname "$OUT")/sites.txt" || fail "no site list"
 tail -1 "$S/rewrite.log"
 exit 0
